@@ -62,6 +62,15 @@ func NewRequestContext(ctx context.Context, req *envoy_auth.CheckRequest) *Reque
 		}
 	}
 
+	// envoy provides the request target as it appears in the first line of the HTTP request,
+	// that is, not decoded and possibly followed by the query string
+	rawPath, query, _ := strings.Cut(req.GetAttributes().GetRequest().GetHttp().GetPath(), "?")
+	if q := req.GetAttributes().GetRequest().GetHttp().GetQuery(); len(q) != 0 {
+		query = q
+	}
+
+	path, _ := url.PathUnescape(rawPath)
+
 	return &RequestContext{
 		ctx:        ctx,
 		ips:        clientIPs,
@@ -70,8 +79,9 @@ func NewRequestContext(ctx context.Context, req *envoy_auth.CheckRequest) *Reque
 		reqURL: &url.URL{
 			Scheme:   req.GetAttributes().GetRequest().GetHttp().GetScheme(),
 			Host:     req.GetAttributes().GetRequest().GetHttp().GetHost(),
-			Path:     req.GetAttributes().GetRequest().GetHttp().GetPath(),
-			RawQuery: req.GetAttributes().GetRequest().GetHttp().GetQuery(),
+			Path:     path,
+			RawPath:  rawPath,
+			RawQuery: query,
 			Fragment: req.GetAttributes().GetRequest().GetHttp().GetFragment(),
 		},
 		reqBody:         req.GetAttributes().GetRequest().GetHttp().GetBody(),
